@@ -1,0 +1,83 @@
+//go:build verif
+
+// Contracts for govc (see /verif/DESIGN.md). Comment-only: compiled only with -tags verif.
+package literal
+
+// ---- C17: the literal-sequence algebra keeps "every match starts with (ends with) one of the literals" ----
+// isPre(p, s): p is a prefix of s; isSuf(p, s): p is a suffix of s.
+//@ spec func isPre(p []byte, s []byte) bool = len(p) <= len(s) && (forall k :: 0 <= k && k < len(p) ==> p[k] == s[k])
+//@ spec func isSuf(p []byte, s []byte) bool = len(p) <= len(s) && (forall k :: 0 <= k && k < len(p) ==> p[k] == s[len(s) - len(p) + k])
+
+//@ func isPrefix
+//@   props C17
+//@   ensures result <==> isPre(prefix, s)
+
+//@ func commonPrefix
+//@   props C17
+//@   ensures isPre(result, a) && isPre(result, b) && base(result) == base(a) && off(result) == off(a)
+//@   ensures len(result) < len(a) && len(result) < len(b) ==> a[len(result)] != b[len(result)]
+//@   loop 1: invariant 0 <= i && i <= minLen && minLen <= len(a) && minLen <= len(b) && (minLen == len(a) || minLen == len(b)) && (forall k :: 0 <= k && k < i ==> a[k] == b[k])
+//@   loop 1: decreases minLen - i
+
+//@ func commonSuffix
+//@   props C17
+//@   ensures isSuf(result, a) && isSuf(result, b)
+//@   ensures len(result) < len(a) && len(result) < len(b) ==> a[len(a) - 1 - len(result)] != b[len(b) - 1 - len(result)]
+//@   loop 1: invariant 0 <= i && i <= minLen && aLen == len(a) && bLen == len(b) && minLen <= aLen && minLen <= bLen && (minLen == aLen || minLen == bLen) && (forall k :: 0 <= k && k < i ==> a[aLen - 1 - k] == b[bLen - 1 - k])
+//@   loop 1: decreases minLen - i
+
+//@ spec func seqOK(s *Seq) bool = s != nil ==> len(s.literals) <= 1000000
+//@ func (*Seq).IsEmpty
+//@   props C17
+//@   ensures result <==> (s == nil || len(s.literals) == 0)
+
+// a common prefix (suffix) of all literals: whatever starts (ends) with one of the literals starts (ends) with it
+//@ func (*Seq).LongestCommonPrefix
+//@   props C17
+//@   requires seqOK(s)
+//@   ensures s != nil ==> (forall i :: 0 <= i && i < len(s.literals) ==> isPre(result, s.literals[i].Bytes))
+//@   ensures s == nil || len(s.literals) == 0 ==> len(result) == 0
+//@   ensures fresh(result) || len(result) == 0
+//@   loop 1: invariant 1 <= i && i <= len(s.literals) && s != nil && len(s.literals) >= 1 && (forall q :: 0 <= q && q < i ==> isPre(prefix, s.literals[q].Bytes))
+//@   loop 1: decreases len(s.literals) - i
+
+//@ func (*Seq).LongestCommonSuffix
+//@   props C17
+//@   requires seqOK(s)
+//@   ensures s != nil ==> (forall i :: 0 <= i && i < len(s.literals) ==> isSuf(result, s.literals[i].Bytes))
+//@   ensures s == nil || len(s.literals) == 0 ==> len(result) == 0
+//@   ensures fresh(result) || len(result) == 0
+//@   loop 1: invariant 1 <= i && i <= len(s.literals) && s != nil && len(s.literals) >= 1 && (forall q :: 0 <= q && q < i ==> isSuf(suffix, s.literals[q].Bytes))
+//@   loop 1: decreases len(s.literals) - i
+
+// truncation: every literal becomes a prefix of what it was, and a shortened literal is no longer complete
+//@ func (*Seq).KeepFirstBytes
+//@   props C17
+//@   requires seqOK(s)
+//@   modifies s.literals[*]
+//@   ensures s != nil ==> len(s.literals) == old(len(s.literals))
+//@   ensures s != nil && n > 0 ==> (forall i :: 0 <= i && i < len(s.literals) ==> isPre(s.literals[i].Bytes, old(s.literals[i].Bytes)) && len(s.literals[i].Bytes) == ite(old(len(s.literals[i].Bytes)) > n, n, old(len(s.literals[i].Bytes))) && (s.literals[i].Complete <==> (old(s.literals[i].Complete) && old(len(s.literals[i].Bytes)) <= n)))
+//@   loop 1: invariant -1 <= rangeindex && rangeindex < rangelen && rangelen == len(s.literals) && s != nil && n > 0
+//@   loop 1: invariant forall i :: 0 <= i && i <= rangeindex ==> isPre(s.literals[i].Bytes, old(s.literals[i].Bytes)) && len(s.literals[i].Bytes) == ite(old(len(s.literals[i].Bytes)) > n, n, old(len(s.literals[i].Bytes))) && (s.literals[i].Complete <==> (old(s.literals[i].Complete) && old(len(s.literals[i].Bytes)) <= n))
+//@   loop 1: invariant forall i :: rangeindex < i && i < len(s.literals) ==> sameslice(s.literals[i].Bytes, old(s.literals[i].Bytes)) && s.literals[i].Complete == old(s.literals[i].Complete)
+//@   loop 1: decreases rangelen - rangeindex
+
+//@ func (*Seq).AllComplete
+//@   props C17
+//@   requires seqOK(s)
+//@   ensures result <==> (s != nil && len(s.literals) > 0 && (forall i :: 0 <= i && i < len(s.literals) ==> s.literals[i].Complete))
+//@   loop 1: invariant -1 <= rangeindex && rangeindex < rangelen && rangelen == len(s.literals) && s != nil && (forall i :: 0 <= i && i <= rangeindex ==> s.literals[i].Complete)
+//@   loop 1: decreases rangelen - rangeindex
+
+// same bytes, same completeness; and a copy of a partial-coverage sequence is still partial
+//@ opaque spec func sameBytes(a []byte, b []byte) bool = len(a) == len(b) && (forall k :: 0 <= k && k < len(a) ==> a[k] == b[k])
+//@ func (*Seq).Clone
+//@   props C17
+//@   requires seqOK(s)
+//@   ensures s == nil <==> result == nil
+//@   ensures result != nil ==> fresh(result) && len(result.literals) == len(s.literals)
+//@   ensures result != nil ==> result.partialCoverage == s.partialCoverage
+//@   ensures result != nil ==> (forall i :: 0 <= i && i < len(s.literals) ==> sameBytes(result.literals[i].Bytes, s.literals[i].Bytes) && result.literals[i].Complete == s.literals[i].Complete)
+//@   loop 1: invariant -1 <= rangeindex && rangeindex < rangelen && rangelen == len(s.literals) && s != nil && fresh(cloned) && allocated(cloned) && len(cloned) == len(s.literals)
+//@   loop 1: invariant forall i :: 0 <= i && i <= rangeindex ==> fresh(cloned[i].Bytes) && allocated(cloned[i].Bytes) && cloned[i].Complete == s.literals[i].Complete && sameBytes(cloned[i].Bytes, s.literals[i].Bytes)
+//@   loop 1: decreases rangelen - rangeindex
